@@ -7,6 +7,7 @@ import (
 	"go/constant"
 	"go/token"
 	"go/types"
+	"regexp/syntax"
 	"sort"
 	"strings"
 
@@ -547,11 +548,13 @@ func runC20(r *Run) {
 	r.RuleDoc("C20.R1", "metric family table: asserted kind = registered kind; Value = the matching status field or the defining expression of a derived family")
 	r.RuleDoc("C20.R2", "BuildInfoLabels: values are read with the original label key whose sanitised form is stored at the same position; every key once")
 	r.RuleDoc("C20.R3", "GetLabelsValues pairs namespace/name keys with the object's namespace/name at the same positions")
+	r.RuleDoc("C20.R5", "the label-name sanitiser keeps exactly the characters [a-zA-Z0-9_] and replaces every other character by a character of that class")
 	r.RuleDoc("C20.R4", "LabelKeys and LabelValues of every metric are built in lock-step from the same calls on the asserted object")
 	r.Floor("C20.R1", 2+21+21) // 2 registrations, 21 families: kind + value each
 	r.Floor("C20.R2", 4)
 	r.Floor("C20.R3", 2)
 	r.Floor("C20.R4", 21)
+	r.Floor("C20.R5", 1)
 	r.NotCovered("that the sanitising function yields a legal Prometheus name and what happens to keys that collide after sanitising (both are exported, each with its own value); the numeric conversion's precision; the registration plumbing of kube-state-metrics and the informer store; semantics of the conditions helpers (IsConditionTrue)")
 
 	fams := c20Families(r)
@@ -571,6 +574,7 @@ func runC20(r *Run) {
 		seenName[f.name] = true
 	}
 	c20BuildInfoLabels(r, build)
+	c20Sanitisers(r, build)
 	c20GetLabelsValues(r, getLV)
 }
 
@@ -1860,6 +1864,324 @@ func c20CollValue(t c20Tok) ssa.Value {
 		}
 	}
 	return t.coll.rep
+}
+
+// ---------------------------------------------------------------------------------------------
+// R5: the sanitiser's character class
+
+// runeSet is a sorted list of disjoint closed intervals of runes.
+type runeSet [][2]rune
+
+const maxRune = rune(0x10FFFF)
+
+func (a runeSet) norm() runeSet {
+	var in runeSet
+	for _, iv := range a {
+		if iv[0] <= iv[1] {
+			in = append(in, iv)
+		}
+	}
+	sort.Slice(in, func(i, j int) bool { return in[i][0] < in[j][0] })
+	var out runeSet
+	for _, iv := range in {
+		if n := len(out); n > 0 && iv[0] <= out[n-1][1]+1 {
+			if iv[1] > out[n-1][1] {
+				out[n-1][1] = iv[1]
+			}
+			continue
+		}
+		out = append(out, iv)
+	}
+	return out
+}
+
+func (a runeSet) complement() runeSet {
+	a = a.norm()
+	var out runeSet
+	next := rune(0)
+	for _, iv := range a {
+		if iv[0] > next {
+			out = append(out, [2]rune{next, iv[0] - 1})
+		}
+		next = iv[1] + 1
+	}
+	if next <= maxRune {
+		out = append(out, [2]rune{next, maxRune})
+	}
+	return out
+}
+
+func (a runeSet) intersect(b runeSet) runeSet {
+	var out runeSet
+	for _, x := range a.norm() {
+		for _, y := range b.norm() {
+			lo, hi := x[0], x[1]
+			if y[0] > lo {
+				lo = y[0]
+			}
+			if y[1] < hi {
+				hi = y[1]
+			}
+			if lo <= hi {
+				out = append(out, [2]rune{lo, hi})
+			}
+		}
+	}
+	return out.norm()
+}
+
+func (a runeSet) equal(b runeSet) bool {
+	a, b = a.norm(), b.norm()
+	if len(a) != len(b) {
+		return false
+	}
+	for i := range a {
+		if a[i] != b[i] {
+			return false
+		}
+	}
+	return true
+}
+
+func (a runeSet) String() string {
+	var out []string
+	for _, iv := range a.norm() {
+		f := func(r rune) string {
+			if r >= 0x21 && r < 0x7f {
+				return string(r)
+			}
+			return fmt.Sprintf("U+%04X", r)
+		}
+		if iv[0] == iv[1] {
+			out = append(out, f(iv[0]))
+		} else {
+			out = append(out, f(iv[0])+"-"+f(iv[1]))
+		}
+	}
+	return "[" + strings.Join(out, " ") + "]"
+}
+
+var c20PromLabelClass = runeSet{{'0', '9'}, {'A', 'Z'}, {'_', '_'}, {'a', 'z'}}
+
+// c20Sanitisers checks every string→string repository function applied inside BuildInfoLabels (the
+// key image): decided on constants only — the character class of a constant regular expression, or
+// the rune ranges tested on the paths of a strings.Map callback.
+func c20Sanitisers(r *Run, build *ssa.Function) {
+	seen := map[*ssa.Function]bool{}
+	fns := append([]*ssa.Function{build}, build.AnonFuncs...)
+	n := 0
+	for _, f := range fns {
+		for _, ci := range callsIn(f) {
+			cal := staticCallee(ci.Common())
+			if cal == nil || !r.Prog.IsRuleSite(cal) || seen[cal] {
+				continue
+			}
+			sig := cal.Signature
+			isStr := func(t types.Type) bool {
+				b, ok := t.Underlying().(*types.Basic)
+				return ok && b.Info()&types.IsString != 0
+			}
+			if sig.Recv() != nil || sig.Params().Len() != 1 || sig.Results().Len() != 1 || !isStr(sig.Params().At(0).Type()) || !isStr(sig.Results().At(0).Type()) {
+				continue
+			}
+			seen[cal] = true
+			n++
+			kept, repl, why := c20SanitiserClass(r, cal)
+			pos := r.Prog.Pos(cal.Pos())
+			construct := "character class of the sanitiser"
+			if n > 1 {
+				construct = fmt.Sprintf("character class of sanitiser %d", n)
+			}
+			if why != "" {
+				r.Undecided("C20.R5", construct, pos, shortFunc(cal), why)
+				continue
+			}
+			okC := kept.equal(c20PromLabelClass)
+			detail := "keeps " + kept.String()
+			for _, rr := range repl {
+				if len(c20PromLabelClass.intersect(runeSet{{rr, rr}})) == 0 {
+					okC = false
+					detail += fmt.Sprintf("; replaces with %q, which is not a legal label-name character", rr)
+				}
+			}
+			if !kept.equal(c20PromLabelClass) {
+				detail += "; a Prometheus label name consists of " + c20PromLabelClass.String() + " (a kept character outside it is illegal, a replaced character inside it changes a legal key and can make two different keys collide)"
+			}
+			r.Check("C20.R5", construct, pos, shortFunc(cal), "the sanitiser keeps exactly [a-zA-Z0-9_] and replaces everything else by one of those characters", okC, detail)
+		}
+	}
+	if n == 0 {
+		r.Check("C20.R5", "character class of the sanitiser", r.Prog.Pos(build.Pos()), shortFunc(build), "label keys are sanitised by a repository function", false, "no string→string repository function is applied in BuildInfoLabels")
+	}
+}
+
+// c20SanitiserClass returns the set of runes the function leaves unchanged and the runes it can
+// substitute, or why it cannot tell.
+func c20SanitiserClass(r *Run, fn *ssa.Function) (kept runeSet, repl []rune, why string) {
+	rv := singleReturn(fn, 0)
+	call, ok := rv.(*ssa.Call)
+	if !ok || len(fn.Params) != 1 {
+		return nil, nil, "undecided: the sanitiser is not a single call of regexp ReplaceAllString or strings.Map"
+	}
+	param := fn.Params[0]
+	switch calleeName(&call.Call) {
+	case "(regexp.Regexp).ReplaceAllString":
+		if len(call.Call.Args) != 3 || call.Call.Args[1] != ssa.Value(param) {
+			return nil, nil, "undecided: ReplaceAllString is not applied to the parameter"
+		}
+		rs, isC := constString(call.Call.Args[2])
+		if !isC {
+			return nil, nil, "undecided: the replacement is not a constant"
+		}
+		repl = []rune(rs)
+		// the regular expression: a package variable initialised once with MustCompile(constant)
+		u, isL := call.Call.Args[0].(*ssa.UnOp)
+		if !isL || u.Op != token.MUL {
+			return nil, nil, "undecided: the regular expression is not a package variable"
+		}
+		g, isG := u.X.(*ssa.Global)
+		if !isG || g.Pkg == nil {
+			return nil, nil, "undecided: the regular expression is not a package variable"
+		}
+		pattern, nSt := "", 0
+		for _, mem := range g.Pkg.Members {
+			mf, isFn := mem.(*ssa.Function)
+			if !isFn {
+				continue
+			}
+			for _, f := range append([]*ssa.Function{mf}, mf.AnonFuncs...) {
+				for _, b := range f.Blocks {
+					for _, in := range b.Instrs {
+						st, isSt := in.(*ssa.Store)
+						if !isSt || st.Addr != ssa.Value(g) {
+							continue
+						}
+						nSt++
+						if mc, isCall := st.Val.(*ssa.Call); isCall && (calleeName(&mc.Call) == "regexp.MustCompile" || calleeName(&mc.Call) == "regexp.MustCompilePOSIX") && len(mc.Call.Args) == 1 {
+							pattern, _ = constString(mc.Call.Args[0])
+						}
+					}
+				}
+			}
+		}
+		if nSt != 1 || pattern == "" {
+			return nil, nil, "undecided: the regular expression is not initialised once from a constant pattern"
+		}
+		re, err := syntax.Parse(pattern, syntax.Perl)
+		if err != nil || re.Op != syntax.OpCharClass {
+			return nil, nil, "undecided: the pattern " + pattern + " is not a single character class"
+		}
+		var replaced runeSet
+		for i := 0; i+1 < len(re.Rune); i += 2 {
+			replaced = append(replaced, [2]rune{re.Rune[i], re.Rune[i+1]})
+		}
+		return replaced.complement(), repl, ""
+	case "strings.Map":
+		if len(call.Call.Args) != 2 || call.Call.Args[1] != ssa.Value(param) {
+			return nil, nil, "undecided: strings.Map is not applied to the parameter"
+		}
+		var cb *ssa.Function
+		switch f := call.Call.Args[0].(type) {
+		case *ssa.Function:
+			cb = f
+		case *ssa.MakeClosure:
+			if len(f.Bindings) == 0 {
+				cb, _ = f.Fn.(*ssa.Function)
+			}
+		}
+		if cb == nil || len(cb.Params) != 1 {
+			return nil, nil, "undecided: the mapping function is not a function literal without captures"
+		}
+		rp := cb.Params[0]
+		paths, _, okP := funcPaths(cb, 5000)
+		if !okP {
+			return nil, nil, "undecided: path cap exceeded in the mapping function"
+		}
+		for _, p := range paths {
+			set := runeSet{{0, maxRune}}
+			for _, f := range p.Facts {
+				bo, isB := f.V.(*ssa.BinOp)
+				if !isB {
+					return nil, nil, "undecided: a condition of the mapping function is not a comparison of the rune with a constant"
+				}
+				var cst int64
+				var okC bool
+				op := bo.Op
+				switch {
+				case bo.X == ssa.Value(rp):
+					cst, okC = constInt(bo.Y)
+				case bo.Y == ssa.Value(rp):
+					cst, okC = constInt(bo.X)
+					switch op { // c op r  ==  r op' c
+					case token.LSS:
+						op = token.GTR
+					case token.GTR:
+						op = token.LSS
+					case token.LEQ:
+						op = token.GEQ
+					case token.GEQ:
+						op = token.LEQ
+					}
+				}
+				if !okC {
+					return nil, nil, "undecided: a condition of the mapping function is not a comparison of the rune with a constant"
+				}
+				// truth of the ORIGINAL comparison on this path (facts are normalised: see normCond)
+				truth := f.Pol
+				switch bo.Op {
+				case token.NEQ, token.GEQ, token.LEQ:
+					truth = !f.Pol
+				}
+				cr := rune(cst)
+				var sat runeSet
+				switch op {
+				case token.EQL:
+					sat = runeSet{{cr, cr}}
+				case token.NEQ:
+					sat = runeSet{{cr, cr}}.complement()
+				case token.LSS:
+					sat = runeSet{{0, cr - 1}}
+				case token.LEQ:
+					sat = runeSet{{0, cr}}
+				case token.GTR:
+					sat = runeSet{{cr + 1, maxRune}}
+				case token.GEQ:
+					sat = runeSet{{cr, maxRune}}
+				default:
+					return nil, nil, "undecided: unsupported comparison in the mapping function"
+				}
+				if !truth {
+					sat = sat.complement()
+				}
+				set = set.intersect(sat)
+			}
+			if len(set) == 0 {
+				continue // infeasible path
+			}
+			ret := returnOf(p.Blocks[len(p.Blocks)-1])
+			res := p.Resolve(ret.Results[0])
+			switch {
+			case res == ssa.Value(rp):
+				kept = append(kept, set...)
+			default:
+				cv, isC := constInt(res)
+				if !isC {
+					return nil, nil, "undecided: the mapping function returns something other than the rune or a constant"
+				}
+				if cv < 0 {
+					return nil, nil, "undecided: the mapping function drops characters"
+				}
+				// a constant returned for a set that is exactly that constant keeps the character
+				if set.equal(runeSet{{rune(cv), rune(cv)}}) {
+					kept = append(kept, set...)
+				} else {
+					repl = append(repl, rune(cv))
+				}
+			}
+		}
+		return kept.norm(), repl, ""
+	}
+	return nil, nil, "undecided: the sanitiser is not a single call of regexp ReplaceAllString or strings.Map"
 }
 
 var _ = sort.Strings
